@@ -154,6 +154,45 @@ def _polls_bundles(tier, seed, props):
     return out
 
 
+FUNCS_PAR = [
+    "ddo::ParallelSolver<St, D, C>::{custom, with_nb_threads, maximize, best_value, best_solution, best_lower_bound, best_upper_bound, set_primal} incl. private get_workload / process_one_node / enqueue_cutset / maybe_update_best / notify_node_finished / abort_search, run by real worker threads",
+    "parking_lot::{Mutex, Condvar} and dashmap::DashMap replaced by scheduler facades (symx/facades): every lock acquisition, condvar wait, worker exit (and, with mapyield=1, every cache call) is a recorded scheduling choice",
+]
+
+
+def _par_bundles(tier, seed, props, modes, variants=None, nseeds=None, dds=DD3):
+    """variants: list of dicts with threads / threads_after / preempt / mapyield / cache / fringe"""
+    lim = dict(max_paths=800, max_secs=15) if tier == "quick" else dict(max_paths=30000, max_secs=900)
+    base = seed * 1000
+    nq = nseeds or (2 if tier == "quick" else 8)
+    if variants is None:
+        variants = [
+            dict(threads=2, preempt=1, cache=0, fringe="simple"),
+            dict(threads=2, preempt=2, cache=0, fringe="nodup"),
+            dict(threads=3, preempt=1, cache=0, fringe="simple"),
+            dict(threads=2, preempt=1, cache=1, fringe="simple", mapyield=1),
+            dict(threads=2, preempt=1, cache=1, fringe="nodup"),
+            dict(threads=1, preempt=0, cache=1, fringe="simple"),
+        ]
+        if tier != "quick":
+            variants += [dict(threads=3, preempt=2, cache=0, fringe="simple"), dict(threads=4, preempt=1, cache=1, fringe="nodup"), dict(threads=2, preempt=3, cache=0, fringe="simple"), dict(threads=2, preempt=2, cache=1, fringe="simple", mapyield=1)]
+    fams = [dict(n=3, b=2, d=2, setnext=1, nsym=3), dict(n=3, b=3, d=2, setnext=1, nsym=2)]
+    out = []
+    i = 0
+    for fi, fam in enumerate(fams):
+        for k in range(nq):
+            s = base + 400 + 30 * fi + k
+            for dd in dds:
+                for mode in modes:
+                    for v in variants:
+                        i += 1
+                        b = dict(kind="par", dd=dd, width=("2" if i % 3 == 0 else "1"), mode=mode, seed=s, rub=("hslack" if i % 2 else "none"), rev=i % 2, warm=i % 4, kmax=(16 if mode == "cutoff" else 30), props=props, **fam, **lim)
+                        b.update(v)
+                        b["_engine"] = "sched"
+                        out.append(P(**b))
+    return out
+
+
 def plan(prop, tier, seed, find):
     """returns dict(engine, bundles, prefixes, vacuity, functions, bounds, nontrivial(rule text, fn))"""
     bound_dd = ("table models over mask states: n<=4 variables, <=3 base states, 2-3 decisions; all symbolic arc costs in +-10^6, incumbent in +-10^7 or none, "
@@ -189,10 +228,10 @@ def plan(prop, tier, seed, find):
         return dict(engine="symx", bundles=_solve_bundles(tier, seed, find, "C01", ["plain"], directed=("dead_end",)), prefixes=["C01:", "nontermination"], vacuity=dict(explored_ge2=1, merge=1), functions=FUNCS_SOLVE, bounds=bound_solve,
                     nontrivial=("decided sub-case in which the solver processed >= 2 sub-problems on some path", lambda r: r["notes"].get("explored_ge2", 0) > 0))
     if prop == "C02":
-        return dict(engine="symx", bundles=_solve_bundles(tier, seed, find, "C02", ["plain", "cutoff"], nseeds=(1 if tier == "quick" else 6)), prefixes=["C02:"], vacuity=dict(interrupted=1, not_interrupted=1), functions=FUNCS_SOLVE, bounds=bound_solve + "; cut-off poll K symbolic in 1..40 (every poll of the run forks)",
+        return dict(engine="symx", bundles=_solve_bundles(tier, seed, find, "C02", ["plain", "cutoff"], nseeds=(1 if tier == "quick" else 6)) + _par_bundles(tier, seed, "C02", ["plain", "cutoff"], nseeds=(1 if tier == "quick" else 4), dds=["lel", "pooled"]), prefixes=["C02:"], vacuity=dict(interrupted=1, not_interrupted=1), functions=FUNCS_SOLVE, bounds=bound_solve + "; cut-off poll K symbolic in 1..40 (every poll of the run forks)",
                     nontrivial=("decided sub-case with >= 2 explored paths", lambda r: r["paths"] >= 2))
     if prop == "C05":
-        return dict(engine="symx", bundles=_solve_bundles(tier, seed, find, "C05", ["cutoff"]) + _polls_bundles(tier, seed, "C05"), prefixes=["C05:"], vacuity=dict(interrupted=1, not_interrupted=1, polls_ge8=1), functions=FUNCS_SOLVE, bounds=bound_solve + "; cut-off poll K symbolic in 1..40 (sequential solver; parallel part see C05 in DESIGN.md)",
+        return dict(engine="symx", bundles=_solve_bundles(tier, seed, find, "C05", ["cutoff"]) + _polls_bundles(tier, seed, "C05") + _par_bundles(tier, seed, "C05", ["cutoff"], nseeds=(1 if tier == "quick" else 6)), prefixes=["C05:"], vacuity=dict(interrupted=1, not_interrupted=1, polls_ge8=1), functions=FUNCS_SOLVE, bounds=bound_solve + "; cut-off poll K symbolic in 1..40 (sequential solver; parallel part see C05 in DESIGN.md)",
                     nontrivial=("decided sub-case in which the cut-off interrupted the run on some path", lambda r: r["notes"].get("interrupted", 0) > 0))
     if prop == "C19":
         return dict(engine="symx", bundles=_solve_bundles(tier, seed, find, "C19", ["cutoff2"]) + _polls_bundles(tier, seed, "C19"), prefixes=["C19:"], vacuity=dict(interrupted=1, boundary=1, polls_ge8=1), functions=FUNCS_SOLVE, bounds=bound_solve + "; two solver runs with cut-off at poll K and K+1 inside one symbolic execution, K symbolic in 1..40; plus, on n=4 models, one uninterrupted run whose wrappers record the upper bound at every poll (covers all K at once; counterexamples are replayed with real cut-off runs)",
@@ -204,6 +243,16 @@ def plan(prop, tier, seed, find):
         fams = [dict(n=3, b=2, d=2, setnext=1, nsym=6), dict(n=4, b=2, d=2, setnext=1, nsym=6), dict(n=4, b=2, d=2, setnext=0, nsym=7), dict(n=3, b=3, d=2, setnext=1, nsym=5, depth_free=1)]
         return dict(engine="symx", bundles=_solve_bundles(tier, seed, find, "C09", ["plain"], fams=fams, caches=("1",), nseeds=(3 if tier == "quick" else 12)), prefixes=["C09:", "nontermination"], vacuity=dict(explored_ge2=1, explored_ge4=1), functions=FUNCS_SOLVE + ["kani: Cache::must_explore"], bounds=bound_solve + "; SimpleCache only, re-convergent structures (2 base states per layer)",
                     nontrivial=("decided sub-case in which the solver processed >= 2 sub-problems on some path", lambda r: r["notes"].get("explored_ge2", 0) > 0), kani=["C09"])
+    bound_par = ("table models n=3, <=3 base states, 2-3 symbolic arc costs; 1-3 workers (thorough: up to 4), pre-emption bound 1-2 (thorough: up to 3), every lock acquisition / condvar wait / worker exit a scheduling choice, "
+                 "cache calls too where mapyield=1; step bound 3000; counterexamples replay concretely on the scheduled build; per sub-case budget quick 800 paths/15 s")
+    if prop == "C03":
+        return dict(engine="sched", bundles=_par_bundles(tier, seed, "C03", ["plain"]), prefixes=["C03:", "C04:", "nontermination"], vacuity=dict(context_switch=1, preemption=1, condvar_wait=1, explored_ge2=1), functions=FUNCS_PAR, bounds=bound_par,
+                    nontrivial=("decided sub-case with at least one pre-emptive context switch on some path", lambda r: r["notes"].get("preemption", 0) > 0))
+    if prop == "C04":
+        variants = [dict(threads=c, threads_after=t, preempt=p, cache=ca, fringe="simple") for (c, t, p, ca) in [(1, 2, 1, 0), (2, 1, 1, 0), (2, 3, 1, 0), (1, 3, 1, 1), (2, 2, 2, 0), (3, 2, 1, 1), (1, 1, 0, 0)]]
+        return dict(engine="sched", bundles=_par_bundles(tier, seed, "C04", ["plain", "cutoff"], variants=variants, nseeds=(1 if tier == "quick" else 5)), prefixes=["C04:", "nontermination"], vacuity=dict(context_switch=1, condvar_wait=1, interrupted=1), functions=FUNCS_PAR,
+                    bounds=bound_par + "; thread count at construction 1..3 and after with_nb_threads 1..3 (including counts larger and smaller than at construction); cut-off poll K symbolic in 1..16",
+                    nontrivial=("decided sub-case with at least one condvar wait on some path", lambda r: r["notes"].get("condvar_wait", 0) > 0))
     if prop == "C17":
         return dict(engine="kani", bundles=[], prefixes=[], vacuity={}, functions=[], bounds="none: Solver::gap is loop-free; all 2^128 pairs (lb, ub) with lb <= ub, IEEE-754 f32 semantics, decided by CBMC",
                     nontrivial=("n/a", lambda r: False), kani=["C17"])
